@@ -515,6 +515,8 @@ def shrink_case(mod, r, budget):
                 raise
             except Exception:
                 continue
+            if not res:  # the candidate could not be tied to the (changed) code: not a smaller failing case
+                continue
             rr = res[0]
             if (bool(rr["clause"]) if want_clause else failing(rr)):
                 cur = rr
